@@ -14,7 +14,7 @@ RULE = ('every ordered selection of <= K of the equations {X=f(Y), X=g(Y,Z), Y=h
         'findall/3 and through assertz + later read-back. At the innermost point get_value of X,Y,Z must be the fully '
         'dereferenced reference term (no bound variable anywhere inside), to_python must equal the reference value at '
         'every depth; the saved get_value results must be structurally unchanged after all generators are closed / '
-        'the query has finished (the [v.get_value() for _ in q] idiom). states = distinct (sequence outcome) '
+        'the query has finished (the [v.get_value() for _ in q] idiom). (3) bind/undo histories: every sequence of <= D operations "unify one of 10 equations" / "undo the most recent unification" with get_value of ALL variables taken after every operation (a lookup is itself an operation: it must not change what later lookups see) compared with the stack of active substitutions. states = distinct (sequence outcome) '
         'observations; transitions = generator steps on the real engine; non-trivial = the value of X contains a '
         'variable that was bound after X')
 ASSUMPTIONS = ['sequences needing a cyclic term are skipped', 'to_python of a partial list is unspecified and not compared']
@@ -26,7 +26,7 @@ VARS = [X, Y, Z, W]
 
 
 def bounds(tier):
-    return {'max_equations': 4 if tier == 'quick' else 5}
+    return {'max_equations': 4 if tier == 'quick' else 5, 'bind_undo_history_depth': 5 if tier == 'quick' else 6}
 
 
 def ref_py(t, env):
@@ -224,12 +224,40 @@ NSH = 32
 
 def plan(tier):
     kmax = 4 if tier == 'quick' else 5
-    return [(kmax, k, NSH) for k in range(NSH)]
+    hd = 5 if tier == 'quick' else 6
+    return [(kmax, k, NSH) for k in range(NSH)] + [('hist', hd, k, 2 * NSH) for k in range(2 * NSH)]
+
+
+def run_histories(spec, acc, kind, sigprefix):
+    _, depth, k, n = spec
+    from .. import bindhist as bh
+    for idx, h in enumerate(bh.histories(depth)):
+        if idx % n != k:
+            continue
+        acc.n['evaluations'] += 1
+        r = bh.run_history(h, (kind,))
+        if r[0] == 'skip':
+            acc.skipped[r[1]] += 1
+            continue
+        acc.n['validated'] += 1
+        if r[0] == 'violation':
+            if r[1] == kind:
+                acc.violation(sigprefix + r[1], ('h', depth, idx), {'history': list(h)}, r[2], key=str(list(h)))
+            continue
+        acc.n['transitions'] += r[2]
+        if 'pop' in h:
+            acc.n['nontrivial'] += 1
+        acc.outcome(('hist', r[1]))
+        if idx % 30011 == 0:
+            acc.sample({'bind_undo_history': bh.describe(h)}, limit=1)
 
 
 def run_shard(spec):
-    kmax, k, n = spec
     acc = Acc()
+    if spec[0] == 'hist':
+        run_histories(spec, acc, 'lookup', 'history:stale-or-wrong-')
+        return acc
+    kmax, k, n = spec
     for idx, seq in sequences(kmax):
         if idx % n != k:
             continue
@@ -261,6 +289,10 @@ def run_shard(spec):
 
 
 def replay(case):
+    if 'history' in case:
+        from .. import bindhist as bh
+        r = bh.run_history(tuple(case['history']))
+        return [(r[1], r[2])] if r[0] == 'violation' else []
     fn = check_api if case['flavor'] == 'api' else check_compiled
     try:
         r = fn(tuple(case['seq']))
